@@ -304,6 +304,9 @@ class Execution:
         from vermouth.gmx.itp import write_molecule_itp
         if rel in self.model.tainted:
             return
+        if any(self.handle_paths.get(h) == rel for h in self.handles):
+            # a raw handle is still open on this path: concurrent handles are outside the statement (section 7)
+            return
         target = os.path.join(self.root, rel)
         if relative:
             target = os.path.relpath(target, self.cwd)
@@ -359,6 +362,9 @@ class Execution:
         elif op == 'read':
             r1 = self.sut(real.read)
             r2 = model(mod.read) if mod is not None else None
+            entry = self.model.entry(self.handle_paths.get(hid))
+            if entry is not None and entry.get('weak'):
+                return
             if r2 is not None and (r1[0] != r2[0] or (r1[0] == 'ok' and r1[1] != r2[1])):
                 raise Violation('handle-read', expected=repr(r2[1])[:80], actual=repr(r1[1])[:80])
         elif op == 'seek':
